@@ -822,7 +822,22 @@ var (
 	k107 [0]struct{}
 	k108 [2][0]int
 	k109 map[*[0]int]*[0]int
+	// structs that differ only in embedding a type or an alias of it (the field is named after what is written)
+	k110 struct{ Tree }
+	k111 struct{ ATree }
+	k112 struct{ *Tree }
+	k113 struct{ *ATree }
+	k114 struct {
+		Tree
+		n int
+	}
+	k115 struct {
+		ATree
+		n int
+	}
 )
+
+type ATree = Tree
 
 type Number2 interface{ M0() }
 
